@@ -1,0 +1,17 @@
+//go:build verif
+// +build verif
+
+package anndb
+
+// Verification hooks (build tag `verif`). Add-only.
+
+import (
+	"github.com/marekgalovic/anndb/cluster"
+	"github.com/marekgalovic/anndb/storage"
+	"github.com/marekgalovic/anndb/storage/raft"
+)
+
+func (this *Server) VerifZeroGroup() *raft.RaftGroup              { return this.zeroGroup }
+func (this *Server) VerifDatasetManager() *storage.DatasetManager { return this.datasetManager }
+func (this *Server) VerifNodesManager() *raft.NodesManager        { return this.nodesManager }
+func (this *Server) VerifConn() *cluster.Conn                     { return this.clusterConn }
